@@ -399,4 +399,35 @@ theorem pex_third_request_refused :
     (pexReceiveRequest 0).2 = true ∧ (pexReceiveRequest (pexReceiveRequest 0).1).2 = true ∧
     (pexReceiveRequest (pexReceiveRequest (pexReceiveRequest 0).1).1).2 = false := by decide
 
+open Tmv.PeerMsgs Tmv.PeerState in
+/-- `Sub` on arrays of different sizes, both ways (a 129-validator vote set against a 1-bit POL
+array and the reverse), and why the loop bound must be the MINIMUM of the two word counts: bounded
+by the receiver's words alone the loop reads `o.Elems` out of range as soon as the peer's array
+is shorter than the node's (more than 64 validators) -/
+theorem sub_loop_bound_must_be_min :
+    (sub (newBitArray 129) (newBitArray 1)).isSome = true ∧
+    (sub (newBitArray 1) (newBitArray 129)).isSome = true ∧
+    subWith (fun _ _ ce => ce) (newBitArray 129) (newBitArray 1) = none ∧
+    (subWith (fun _ _ ce => ce) (newBitArray 64) (newBitArray 1)).isSome = true := by decide
+
+/-! ## the peer level: several peers delivering on one channel -/
+
+/-- For ANY interleaving of the peers' deliveries on a shared channel, the messages the reactor is
+handed as coming from peer `p` are exactly `p`'s messages, in order, each decoded from its own
+bytes. (With one decode target shared by all peers — the seeded change C17-r3-1 — delivery is not
+a function of the message's bytes and the statement has no counterpart; the stream `peers` judges
+the real code with concurrent senders.) -/
+theorem peers_do_not_mix {α : Type} (decode : Bytes → α) (arrivals : List (Nat × Bytes)) (p : Nat) :
+    ((hubDeliver decode arrivals).filter (·.1 = p)).map (·.2) =
+      ((arrivals.filter (·.1 = p)).map (·.2)).map decode := by
+  induction arrivals with
+  | nil => rfl
+  | cons a as ih =>
+    unfold hubDeliver at ih ⊢
+    by_cases h : a.1 = p
+    · simp only [List.map_cons, List.filter_cons, h, decide_true, if_true] at ih ⊢
+      rw [ih]
+    · simp only [List.map_cons, List.filter_cons, h, decide_false] at ih ⊢
+      exact ih
+
 end Tmv.Props.C17
